@@ -403,6 +403,16 @@ def tamper(root: str, what: str, p: str) -> None:
     if what == "manifest_entry":
         _avro_rewrite(man_path, lambda r: r["data_file"].__setitem__("file_path", p))
         return
+    if what.startswith("manifest_entry@"):
+        # the entry's NUMBERS as well: recorded size and row count set to a magnitude (a code path keyed on "large file")
+        n = int(what.split("@", 1)[1])
+
+        def ed_n(r: Dict[str, Any]) -> None:
+            r["data_file"]["file_path"] = p
+            r["data_file"]["file_size_in_bytes"] = n
+            r["data_file"]["record_count"] = n
+        _avro_rewrite(man_path, ed_n)
+        return
     if what == "manifest_entry_nochecksum":
         def ed(r: Dict[str, Any]) -> None:
             r["data_file"]["file_path"] = p
